@@ -41,16 +41,26 @@ def finding_for(kf, prop, item):
 
 def run_units(units, tier):
     results = {}
+    kani_units = []
     with cf.ThreadPoolExecutor(max_workers=8) as ex:
         futs = {}
         for u in units:
-            if u.startswith('kani:'):
-                import kx
-                futs[ex.submit(kx.run_group, u[5:], REPO, tier)] = u
+            if u.startswith('bx:'):
+                import bx as _bx
+                futs[ex.submit(_bx.run, [u[3:]], REPO, None, (400 if tier == 'thorough' else None), int(os.environ.get('VERIF_SEED', '0') or 0))] = u
+            elif u.startswith('kani:'):
+                kani_units.append(u)
             else:
                 futs[ex.submit(vrun.run_unit, u, REPO, None, True, (), os.environ.get('VERIF_TAG', ''))] = u
+        kf = None
+        if kani_units:
+            import kx
+            kf = ex.submit(kx.run_groups, [u[5:] for u in kani_units], REPO, tier)
         for f in cf.as_completed(futs):
             results[futs[f]] = f.result()
+        if kf is not None:
+            for g, r in kf.result().items():
+                results['kani:' + g] = r
     return results
 
 
@@ -104,6 +114,21 @@ def main():
     import finder
     for uname in spec['units']:
         r = results[uname]
+        if uname.startswith('bx:'):
+            # BOUNDED-ONLY stand-in for code no verifier here can take (derive-generated work()): never counted as proved
+            bounded.append({'unit': uname, 'bounded': True, 'why': 'no verifier in reach (proc-macro generated code); bounded drip-feed check of the real code',
+                            'stats': r.stats, 'status': r.status, 'cmd': r.cmd})
+            cmds.append(r.cmd)
+            if r.status == 'undecided':
+                undecided.append('%s: %s' % (uname, r.reason[:200]))
+            for b in r.fails:
+                if prop in finder.props_of(b):
+                    f = {'unit': 'bounded:' + uname[3:], 'fn': b.get('target'), 'label': b.get('label'), 'kind': 'bounded-contract-check',
+                         'props': finder.props_of(b), 'message': b.get('what'), 'src': None, 'stmt': '', 'rendered': str(b),
+                         'counterexample': {'kind': 'bounded-harness', 'harness': bx.UNIT_HARNESS[uname[3:]][0], 'failure': b, 'cmd': r.cmd}}
+                    k = finding_for(kf, prop, f)
+                    (known if k else violations).append((f, k, r))
+            continue
         if r.status == 'undecided':
             extraction = any(r.reason.startswith(x) for x in ('lost anchor', 'verus/rustc error', 'rule engine', 'extractor error'))
             if extraction and uname in bx.UNIT_HARNESS:
@@ -158,7 +183,7 @@ def main():
             k = finding_for(kf, prop, f)
             (known if k else violations).append((f, k, r))
     if tier == 'thorough':
-        bunits = [u for u in spec['units'] if u in bx.UNIT_HARNESS and results[u].status != 'undecided']
+        bunits = [u for u in spec['units'] if u in bx.UNIT_HARNESS and not u.startswith('bx:') and results[u].status != 'undecided']
         if bunits:
             br = bx.run(bunits, REPO, seed=seed, n=400, depth=6, timeout=1800)
             bounded.append({'units': bunits, 'bounded': True, 'why': 'thorough tier: cross-check of the contracts on the compiled code',
